@@ -99,3 +99,64 @@ func c06LateCases(yield func(vlib.Case)) {
 		return res
 	}})
 }
+
+// c06StatusKept: "a successful resumption leaves both sides with ... the identity and
+// authentication status the original handshake established" - for sessions in which
+// authentication did NOT run although both sides list a common method (levels OPTIONAL /
+// PREFERRED-vs-NEVER / NEVER), and for authenticated ones, resumed through the real client.
+func c06StatusKept(res *vlib.Result, ca, sa security.SecurityLevel, methods []security.AuthMethod) {
+	res.Evals++
+	id := fmt.Sprintf("client auth %s, server auth %s, methods %v", lv(ca), lv(sa), methods)
+	security.ClearSessionCache()
+	cache := security.NewSessionCache()
+	mk := func() (*security.SecurityConfig, *security.SecurityConfig) {
+		cc := baseCfg(ca, security.SecurityRequired, methods, []security.CryptoMethod{security.CryptoAES}, false)
+		sc := baseCfg(sa, security.SecurityRequired, methods, []security.CryptoMethod{security.CryptoAES}, true)
+		cc.SessionCache, cc.Command = cache, 5
+		return cc, sc
+	}
+	cc, sc := mk()
+	r0 := hsRun(hsOpts{ClientCfg: cc, ServerCfg: sc, App: true})
+	if r0.C.Err != nil || r0.S.Err != nil {
+		res.Outcome("status-kept-setup-refused")
+		return
+	}
+	defer security.GetSessionCache().Invalidate(r0.S.Neg.SessionId)
+	cc, sc = mk()
+	r := hsRun(hsOpts{ClientCfg: cc, ServerCfg: sc, App: true})
+	res.Transitions += 2
+	if r.C.Err != nil || r.S.Err != nil || !r.C.Resumed || !r.S.Resumed {
+		res.Outcome("status-kept-not-resumed")
+		return
+	}
+	res.Nontrivial++
+	for _, side := range []struct {
+		name     string
+		was, now *security.SecurityNegotiation
+	}{{"server", r0.S.Neg, r.S.Neg}, {"client", r0.C.Neg, r.C.Neg}} {
+		if side.was.Authentication != side.now.Authentication {
+			res.Violate("C06/resumed-status-differs/authentication/"+side.name, "%s: the original handshake ended with Authentication=%v on the %s; the resumed connection reports %v", id, side.was.Authentication, side.name, side.now.Authentication)
+		}
+		if side.name == "server" && side.was.User != side.now.User {
+			res.Violate("C06/resumed-status-differs/identity", "%s: identity %q became %q", id, side.was.User, side.now.User)
+		}
+		if side.was.Encryption != side.now.Encryption {
+			res.Violate("C06/resumed-status-differs/encryption/"+side.name, "%s: Encryption %v became %v", id, side.was.Encryption, side.now.Encryption)
+		}
+	}
+	res.Outcome(fmt.Sprintf("status-kept-authenticated=%v", r.S.Neg.Authentication))
+}
+
+func c06StatusCases(yield func(vlib.Case)) {
+	yield(vlib.Case{ID: "resumed-status", Run: func() *vlib.Result {
+		res := &vlib.Result{}
+		for _, ms := range [][]security.AuthMethod{{mCTB}, {mTOK, mCTB}, {security.AuthFS, mCTB}} {
+			for _, ca := range c10Levels {
+				for _, sa := range c10Levels {
+					c06StatusKept(res, ca, sa, ms)
+				}
+			}
+		}
+		return res
+	}})
+}
